@@ -26,6 +26,10 @@ type s3op struct {
 	Body string   `json:"body,omitempty"`
 	Tag  string   `json:"tag,omitempty"` // uploads of identical bytes differ in the metadata they carry
 	Keys []string `json:"keys,omitempty"`
+	// multi-delete only: "" = bare keys, "null" = every Object names version "null" (the version id of
+	// every object of a never-versioned bucket: the same delete), "bogus" = every Object names a version
+	// that does not exist (nothing may be deleted)
+	Ver string `json:"version_ids,omitempty"`
 }
 
 func (o s3op) String() string {
@@ -35,7 +39,7 @@ func (o s3op) String() string {
 	case "copy":
 		return fmt.Sprintf("copy(%s/%s->%s/%s)", o.SB, o.SK, o.B, o.K)
 	case "multi-delete":
-		return fmt.Sprintf("multi-delete(%s,%v)", o.B, o.Keys)
+		return fmt.Sprintf("multi-delete%s(%s,%v)", o.Ver, o.B, o.Keys)
 	case "list-buckets":
 		return "list-buckets"
 	case "create-bucket", "head-bucket", "delete-bucket":
@@ -104,7 +108,14 @@ func execHTTP(s *drv.Server, o s3op) s3obs {
 	case "delete":
 		q = &drv.Req{Method: "DELETE", Path: drv.ObjPath(o.B, o.K)}
 	case "multi-delete":
-		q = &drv.Req{Method: "POST", Path: "/" + o.B, Query: "delete", Body: deleteXML(o.Keys, false)}
+		body := deleteXML(o.Keys, false)
+		switch o.Ver {
+		case "null":
+			body = bytes.ReplaceAll(body, []byte("</Key>"), []byte("</Key><VersionId>null</VersionId>"))
+		case "bogus":
+			body = bytes.ReplaceAll(body, []byte("</Key>"), []byte("</Key><VersionId>3HL4kqtJlcpXroDTDmJ.rUAGAdjsfw</VersionId>"))
+		}
+		q = &drv.Req{Method: "POST", Path: "/" + o.B, Query: "delete", Body: body}
 	case "copy":
 		q = &drv.Req{Method: "PUT", Path: drv.ObjPath(o.B, o.K), Header: drv.H("x-amz-copy-source", drv.CopySourceEscape(o.SB, o.SK))}
 	default:
@@ -222,7 +233,11 @@ func execGo(s *drv.Server, o s3op) (ob s3obs) {
 		_, err := b.DeleteObject(o.B, o.K)
 		return errToObs(err, 204)
 	case "multi-delete":
-		res, err := b.DeleteMulti(o.B, o.Keys...)
+		keys := o.Keys
+		if o.Ver == "bogus" {
+			keys = nil // the Go API's DeleteMulti takes keys only
+		}
+		res, err := b.DeleteMulti(o.B, keys...)
 		if err != nil {
 			return errToObs(err, 200)
 		}
@@ -275,6 +290,9 @@ func modelStep(m *model.S3Model, o s3op, goAPI bool) model.Outcome {
 	case "delete":
 		return m.Delete(o.B, o.K)
 	case "multi-delete":
+		if o.Ver == "bogus" {
+			return m.MultiDelete(o.B, nil)
+		}
 		return m.MultiDelete(o.B, o.Keys)
 	case "copy":
 		return m.Copy(o.SB, o.SK, o.B, o.K)
@@ -331,6 +349,11 @@ func compareOutcome(o s3op, want model.Outcome, got s3obs, goAPI bool) (string, 
 			return "listbuckets-mismatch", fmt.Sprintf("buckets %v, model says %v", got.Names, want.Names)
 		}
 	case "multi-delete":
+		if o.Ver == "bogus" {
+			// whether a version that does not exist is reported as deleted or as an error is not
+			// judged: the audit reads decide that nothing was removed
+			break
+		}
 		if !eqStrings(sortedCopy(got.Deleted), sortedCopy(want.Deleted)) || len(got.Errors) > 0 {
 			return "multidelete-mismatch", fmt.Sprintf("Deleted %v Errors %v, model says Deleted %v", got.Deleted, got.Errors, want.Deleted)
 		}
@@ -485,7 +508,7 @@ func opAlphabet(buckets, keys []string, single bool) []s3op {
 func runC02(c *Ctx) {
 	r := c.R
 	exhLen := r.Pick(3, 4)
-	r.SetRule(fmt.Sprintf("bounded-exhaustive: every sequence of length %d over a reduced alphabet (1 bucket, keys k and d/x: create/head/delete bucket, put x2 bodies and the first body again with other metadata, get, head, delete, copy incl. self-copy, multi-delete, list-buckets), every put carrying body-derived Content-Type and x-amz-meta-w that reads must return, each step followed by an audit read of every key; random: sequences of 30-60 ops over 2 buckets x keys {k, d/x, d/y, d/e/z} incl. cross-bucket copy, a third never-created bucket and never-written ghost keys (below an object, the name of a directory above objects, an extension of a key) as targets of reads, deletes and copy sources; each on mem, bolt, fs-mm, fs-dir, single-mm, single-dir, with and without auto-bucket, via HTTP and via the Go Backend API; distinct = (configuration, op-kind sequence, outcome-class sequence) containing a mutation followed by a dependent read", exhLen))
+	r.SetRule(fmt.Sprintf("bounded-exhaustive: every sequence of length %d over a reduced alphabet (1 bucket, keys k and d/x: create/head/delete bucket, put x2 bodies and the first body again with other metadata, get, head, delete, copy incl. self-copy, multi-delete, list-buckets), every put carrying body-derived Content-Type and x-amz-meta-w that reads must return, each step followed by an audit read of every key; random: sequences of 30-60 ops over 2 buckets x keys {k, d/x, d/y, d/e/z} incl. cross-bucket copy, a third never-created bucket and never-written ghost keys (below an object, the name of a directory above objects, an extension of a key) as targets of reads, deletes and copy sources, multi-deletes with bare keys, with version id 'null' (the same delete in a never-versioned bucket) and with a version id that does not exist (nothing may be removed); each on mem, bolt, fs-mm, fs-dir, single-mm, single-dir, with and without auto-bucket, via HTTP and via the Go Backend API; distinct = (configuration, op-kind sequence, outcome-class sequence) containing a mutation followed by a dependent read", exhLen))
 	r.Exhaustive(true)
 	var cfgs []c02Config
 	for _, k := range drv.AllKinds {
@@ -628,7 +651,7 @@ func runC02(c *Ctx) {
 					if rk != k {
 						ks = append(ks, rk)
 					}
-					ops = append(ops, s3op{Kind: "multi-delete", B: b, Keys: ks})
+					ops = append(ops, s3op{Kind: "multi-delete", B: b, Keys: ks, Ver: []string{"", "", "null", "bogus"}[rng.Intn(4)]})
 				default:
 					sb, sk := bk[rng.Intn(2)], keys[rng.Intn(len(keys))]
 					if rng.Intn(6) == 0 {
